@@ -385,7 +385,7 @@ def run(ck):
                 replay={"rule": w["rule"], "witness": w, "lhs_rows": l["rows"], "rhs_rows": rr["rows"], "requests": [wreqs[[q["id"] for q in wreqs].index(wid)]]})
 
     # (C) whole optimizer: on vs off vs custom(exclude known-unsound rules)
-    nq = 120 if ck.quick() else 2500
+    nq = 40 if ck.quick() else 2500
     rng = random.Random(ck.seed * 7919 + 17)
     cases = c01_gen.gen_cases(rng, nq)
     # corpus first
@@ -417,13 +417,13 @@ def run(ck):
     for k, c in enumerate(cases):
         for eng in ("mem", "disk"):
             reqs.append({"id": "q%d:%s" % (k, eng), "engine": eng, "setup": c["setup"], "queries": [
-                {"sql": c["sql"], "opt": "off", "plans": True}, {"sql": c["sql"], "opt": "on"},
-                {"sql": c["sql"], "opt": "custom", "exclude": known_rule_names},
+                {"sql": c["sql"], "opt": "off", "plans": True}, {"sql": c["sql"], "opt": "on", "plans": True},
+                {"sql": c["sql"], "opt": "custom", "exclude": known_rule_names, "plans": True},
                 {"sql": c["sql"], "opt": "custom", "exclude": plan_level_names, "plans": True}]})
     # run in parallel chunks
     res = {}
     import concurrent.futures
-    nchunks = 12
+    nchunks = 16
     chunks = [reqs[j::nchunks] for j in range(nchunks)]
     with concurrent.futures.ThreadPoolExecutor(max_workers=nchunks) as ex:
         for part in ex.map(lambda jc: run_harness(ck, jc[1], "opt%d" % jc[0], stages), enumerate(chunks)):
@@ -442,55 +442,61 @@ def run(ck):
                 continue
             off, on, cu, cu2 = a["results"]
             stats["runs"] += 1
-            cmpf = (lambda x: c01_gen.result_key(c, x))
-            if on["class"] != "ok":
-                stats["on_fail"] += 1
-                if off["class"] == "ok":
-                    ck.report("opt:optimized-plan-fails:" + vlib.slug(c["sql"])[:40], "query runs unoptimized but fails optimized (%s): %s" % (on.get("msg", "")[:100], c["sql"]),
-                              replay={"case": c, "engine": eng, "on": on, "requests": [{"id": "replay", "engine": eng, "setup": c["setup"], "queries": [{"sql": c["sql"], "opt": "off"}, {"sql": c["sql"], "opt": "on", "plans": True}]}]})
-                continue
-            # nested-loop right/full outer joins are `todo!()` in the executor (and the panic is
-            # swallowed, see C15): a bound plan containing one cannot be run unoptimized
-            nl_outer = ("(join right_outer" in off.get("bound", "")) or ("(join full_outer" in off.get("bound", ""))
-            if off["class"] != "ok" or nl_outer:
+
+            def key(x):
+                return ("fail",) if x["class"] != "ok" else c01_gen.result_key(c, x["rows"])
+
+            def has_nl_outer(plan):
+                return ("(join right_outer" in (plan or "")) or ("(join full_outer" in (plan or ""))
+            # nested-loop right/full outer joins are `todo!()` in the executor and the panic is
+            # swallowed (C15/C17): a plan containing one returns no rows instead of failing
+            off_ok = off["class"] == "ok" and not has_nl_outer(off.get("bound"))
+            on_nl = on["class"] == "ok" and has_nl_outer(on.get("optimized"))
+            if not off_ok:
                 stats["off_not_runnable"] += 1
-                ref, refname = (cu2, "custom2") if nl_outer else (cu, "custom")
-                if ref["class"] != "ok":
-                    continue
-                if nl_outer and ("(join right_outer" in ref.get("optimized", "") or "(join full_outer" in ref.get("optimized", "")):
-                    continue    # the reference plan still holds a nested-loop outer join: nothing to compare with
-            else:
+            # reference: the unoptimized answer; where the bound plan cannot run, the optimizer
+            # without the rules of the recorded findings
+            if off_ok:
                 ref, refname = off, "off"
+            else:
+                ref, refname = (cu2, "custom2") if has_nl_outer(off.get("bound")) else (cu, "custom")
+                if ref["class"] != "ok" or has_nl_outer(ref.get("optimized")):
+                    continue    # nothing to compare with
             if ref["rows"]:
                 stats["nonempty"] += 1
                 distinct.add(c["sql"])
-            if cmpf(on["rows"]) == cmpf(ref["rows"]):
+            if on["class"] != "ok":
+                stats["on_fail"] += 1
+            if key(on) == key(ref) and not on_nl:
                 stats["on_eq_off"] += 1
+                continue
+            replay = {"case": c, "engine": eng, "reference": refname, "ref": ref, "off": off, "on": on, "custom": cu,
+                      "requests": [{"id": "replay", "engine": eng, "setup": c["setup"], "queries": [{"sql": c["sql"], "opt": "off", "plans": True}, {"sql": c["sql"], "opt": "on", "plans": True}]}]}
+            if on_nl:
+                stats["known_rule_diffs"] += 1
+                ck.report("plan:nl-outer-join-left-in-optimized-plan", "the optimized plan of `%s` keeps a nested-loop right/full outer join, which the executor cannot run (todo!(); the statement silently returns no rows)" % c["sql"], replay=replay)
                 continue
             # differs.  Is it explained by the rules of ONE recorded finding (the answer is the
             # reference's again once exactly those rules are left out)?
-            explained = (refname != "off") or (cu["class"] == "ok" and cmpf(cu["rows"]) == cmpf(off["rows"]))
+            explained = (refname != "off") or (key(cu) == key(off))
             culprit = None
             if explained:
                 for sig, ex in kf_excl:
-                    one = run_harness(ck, [{"id": "one", "engine": eng, "setup": c["setup"], "queries": [{"sql": c["sql"], "opt": "custom", "exclude": ex}]}], "one%d" % k, stages).get("one")
-                    if one and one["results"] and one["results"][0]["class"] == "ok" and cmpf(one["results"][0]["rows"]) == cmpf(ref["rows"]):
+                    one = run_harness(ck, [{"id": "one", "engine": eng, "setup": c["setup"], "queries": [{"sql": c["sql"], "opt": "custom", "exclude": ex, "plans": True}]}], "one%d" % k, stages).get("one")
+                    if one and one["results"] and not has_nl_outer(one["results"][0].get("optimized")) and key(one["results"][0]) == key(ref):
                         culprit = sig
                         break
             if culprit:
                 stats["known_rule_diffs"] += 1
-                ck.report(culprit, "optimizer changes the answer of `%s`; the answer is the reference's again without the rule(s) of this finding" % c["sql"],
-                          replay={"case": c, "engine": eng, "reference": refname, "ref": ref, "on": on,
-                                  "requests": [{"id": "replay", "engine": eng, "setup": c["setup"], "queries": [{"sql": c["sql"], "opt": "off", "plans": True}, {"sql": c["sql"], "opt": "on", "plans": True}]}]})
+                ck.report(culprit, "optimizer changes the answer of `%s` (%s instead of %s); the answer is the reference's again without the rule(s) of this finding" % (
+                    c["sql"], on.get("msg") or str(on.get("rows"))[:80], str(ref.get("rows"))[:80]), replay=replay)
                 continue
-            if explained and refname == "off":
+            if explained:
                 stats["known_rule_diffs"] += 1
-                ck.report("optimizer:combination-of-known-unsound-rules", "on/off differ on `%s`; equal with all known-unsound rules removed together" % c["sql"][:160], replay={"case": c, "engine": eng})
+                ck.report("optimizer:combination-of-known-unsound-rules", "optimizer changes the answer of `%s`; it is the reference's again with all recorded unsound rules removed together (no single finding explains it)" % c["sql"][:160], replay=replay)
                 continue
             stats["new_diffs"] += 1
-            ck.report("opt:on-off-differ:" + vlib.slug(c["sql"])[:60], "optimizer changes the answer of `%s` on %s (reference: %s; not explained by any recorded finding)" % (c["sql"], eng, refname),
-                      replay={"case": c, "engine": eng, "reference": refname, "ref": ref, "off": off, "on": on, "custom": cu,
-                              "requests": [{"id": "replay", "engine": eng, "setup": c["setup"], "queries": [{"sql": c["sql"], "opt": "off", "plans": True}, {"sql": c["sql"], "opt": "on", "plans": True}]}]})
+            ck.report("opt:on-off-differ:" + vlib.slug(c["sql"])[:60], "optimizer changes the answer of `%s` on %s (reference: %s; not explained by any recorded finding)" % (c["sql"], eng, refname), replay=replay)
     # every refuted plan rule must have been reproduced on the implementation (corpus cases do that)
     for r in prefuted:
         sigs = [f["sig"] for f in ck.known.values() if f["property"] == "C01" and r["name"] in (f.get("exclude_rules") or [])]
